@@ -55,7 +55,7 @@ CHECKS = {
                 text="Every builder kind x abandonment point (fresh, after header, constructor panic at every index k <= n, completed) x element kind (token, no drop glue, zero-sized, over-aligned) x arena phase (Sleeping, Marking, Marked, Sweeping) x copy source length n-1/n/n+1: destructor log equals the initialised parts exactly once, block released, Gc count / debt bits / phase unchanged by abandonment, constructor called exactly once per index in order, later collections and arena drop stay clean.",
                 tech="exhaustive enumeration of builder abandonment points on the real code"),
     "C12": dict(engine="probes", cat="exploration", ref="5/C12", note=PROBE_NOTE + " Five root-type shapes of the implied-'static family are listed as known findings (rustc #25860 family).",
-                text="Exhaustive enumeration of the brand-escape grammar (13 branded things x 9 escape routes x 8 API entry points, cross-arena uses under nested mutate / finalize, re-entrant collection calls, shrink/grow variance by value and behind references for 18 types, Send/Sync for 18 types incl. arenas with plain-data roots, root-type shapes implying 'gc: 'static): every negative program must be rejected by rustc, every positive twin accepted; accepted negatives are run to show the consequence.",
+                text="Exhaustive enumeration of the brand-escape grammar (13 branded things x 17 escape routes x 8 API entry points, cross-arena uses under nested mutate / finalize, re-entrant collection calls, shrink/grow variance by value and behind references for 18 types, Send/Sync for 18 types incl. arenas with plain-data roots, root-type shapes implying 'gc: 'static): every negative program must be rejected by rustc, every positive twin accepted; accepted negatives are run to show the consequence.",
                 tech="exhaustive enumeration of a bounded program grammar, compiler verdict per program, execution of accepted programs"),
     "C13": dict(engine="probes", cat="exploration", ref="5/C13", note=PROBE_NOTE,
                 text="Typed term grammar (Write sources x 28 holder fields x projection chains up to depth 4/5 x sinks), typed under an over-approximate model so that impls that do not exist today are probed too; every program rustc accepts is run with the holder black in a fully marked arena and a fresh white child, violation = child reachable through the holder but destructed; fixed probes for forged Write, unsafe accessors, Cell/RefCell under derive with every mode/bound/require_static combination, user Unlock/DerefWrite/IndexWrite impls and user index types; the sanctioned setters are run as controls.",
